@@ -44,12 +44,13 @@ Init == /\ now = 0 /\ fs = [d \in Dirs |-> [u \in Uris |-> Absent]]
 (* ---------------- environment ---------------- *)
 Tick == /\ now < MaxTick /\ now' = now + 1 /\ last' = [op |-> "tick"]
         /\ UNCHANGED <<fs, coll, stamp, ver, nobj, built, pinned, mods, alias>>
-\* create or overwrite file u in directory d; mtime = current whole second;
-\* ok = FALSE writes a template that does not compile
-WriteFile(d, u, ok) ==
+\* create or overwrite file u in directory d; mtime = current whole second; kind "ok", "broken" (a template
+\* that does not compile) or "unreadable" (stat works, reading raises OSError)
+FileKinds == {"ok", "broken", "unreadable"}
+WriteFile(d, u, kind) ==
         /\ ver < MaxVer /\ ver' = ver + 1
-        /\ fs' = [fs EXCEPT ![d][u] = [st |-> IF ok THEN "ok" ELSE "broken", ver |-> ver + 1, mt |-> Sec(now)]]
-        /\ last' = [op |-> "write", d |-> d, u |-> u, ok |-> ok]
+        /\ fs' = [fs EXCEPT ![d][u] = [st |-> kind, ver |-> ver + 1, mt |-> Sec(now)]]
+        /\ last' = [op |-> "write", d |-> d, u |-> u, kind |-> kind]
         /\ UNCHANGED <<now, coll, stamp, nobj, built, pinned, mods, alias>>
 DeleteFile(d, u) ==
         /\ fs[d][u].st # "absent" /\ fs' = [fs EXCEPT ![d][u] = Absent]
@@ -85,9 +86,14 @@ Reuse(u, d, fn) == ModDir /\ mods[u].kind # "none" /\ mods[u].mt >= fs[d][fn].mt
 \* fn = the name of the source file in directory d (the URI itself, except for an entry that was placed
 \* with put_template under another URI than its own)
 Load(u, d, fn, c0, s0, op, pfx) ==
-  IF ~Reuse(u, d, fn) /\ fs[d][fn].st = "broken"
+  IF ~Reuse(u, d, fn) /\ fs[d][fn].st \in {"broken", "unreadable"}
   THEN /\ coll' = c0 /\ stamp' = Norm(c0, s0)        \* except: self._collection.pop(uri, None); raise
-       /\ last' = [op |-> op, u |-> u, res |-> "compile_error", br |-> pfx \o "-broken"] /\ UNCHANGED <<nobj, built, mods>>
+       \* a source that cannot be read raises OSError: raw on a first load, but inside _check's try block on a
+       \* reload, where every OSError becomes TemplateLookupException
+       /\ last' = [op |-> op, u |-> u,
+                   res |-> IF fs[d][fn].st = "broken" THEN "compile_error" ELSE IF pfx = "reload" THEN "lookup_exc" ELSE "os_error",
+                   br |-> pfx \o "-" \o fs[d][fn].st]
+       /\ UNCHANGED <<nobj, built, mods>>
        /\ alias' = [alias EXCEPT ![u] = None]
   ELSE LET m  == IF Reuse(u, d, fn) THEN mods[u]
                  ELSE [kind |-> "mod", ver |-> fs[d][fn].ver, mt |-> Sec(now), ct |-> now, dir |-> d, fn |-> fn]
@@ -144,7 +150,7 @@ PutFile(u, d, v) ==
   /\ UNCHANGED <<now, fs, mods, built, ver>>
 
 Next == \/ Tick
-        \/ \E d \in Dirs, u \in Uris : WriteFile(d, u, TRUE) \/ WriteFile(d, u, FALSE) \/ DeleteFile(d, u)
+        \/ \E d \in Dirs, u \in Uris : (\E k \in FileKinds : WriteFile(d, u, k)) \/ DeleteFile(d, u)
         \/ \E u \in Uris : Get(u) \/ Has(u) \/ Put(u, TRUE) \/ Put(u, FALSE)
         \/ \E u, v \in Uris, d \in Dirs : PutFile(u, d, v)
 Spec == Init /\ [][Next]_vars
@@ -177,18 +183,18 @@ VanishedRaisesLookup == [][\A u \in Uris :
 NoChecksSticky == [][\A u \in Uris :
       (~FsChecks /\ IsGet' /\ last'.u = u /\ coll[u].kind # "none") => (last'.res = "tmpl" /\ last'.obj = coll[u].obj)]_vars
 \* a failed compilation leaves the lookup usable: the broken URI is not cached, nothing else changes
-RecoverAfterFailure == [][(IsGet' /\ last'.res = "compile_error") =>
+RecoverAfterFailure == [][(IsGet' /\ last'.res \in {"compile_error", "os_error"}) =>
       (coll'[last'.u].kind = "none" /\ \A v \in Uris \ {last'.u} : coll'[v] = coll[v])]_vars
 \* eviction never changes what a lookup returns: a miss caused by eviction loads exactly what a first
 \* request would load (FirstDirWins covers it because an evicted URI is simply an uncached one), and
 \* put_string / put_template entries are served under their URI -- for ever:
 PutServed == (IsGet /\ pinned[last.u] # 0) => (last.res = "tmpl" /\ last.obj = pinned[last.u])
 \* ... including a file-backed template registered under another URI: as long as its file is there
-PutFileServed == (IsGet /\ alias[last.u].kind # "none" /\ fs[alias[last.u].d][alias[last.u].fn].st # "absent") => last.res \in {"tmpl", "compile_error"}
+PutFileServed == (IsGet /\ alias[last.u].kind # "none" /\ fs[alias[last.u].d][alias[last.u].fn].st # "absent") => last.res \in {"tmpl", "compile_error", "os_error", "lookup_exc"}
 \* Witnesses: state predicates that MUST be reachable; the harness asks TLC for a behaviour reaching each
 \* (as a counterexample to its negation) and replays that behaviour on the real TemplateLookup, so that every
 \* branch of get_template is exercised by a TLC-generated behaviour and not only by random simulation.
-Branches == {"hit", "hit-nocheck", "vanished", "reload", "reload-reuse", "reload-broken", "miss", "load", "load-reuse", "load-broken"}
+Branches == {"hit", "hit-nocheck", "vanished", "reload", "reload-reuse", "reload-broken", "reload-unreadable", "miss", "load", "load-reuse", "load-broken", "load-unreadable"}
 WBranch(b) == IsGet /\ last.br = b
 WAliasBranch(b) == IsGet /\ last.br = b /\ alias[last.u].kind # "none"
 WEvicted == \E u \in Uris : coll[u].kind = "none" /\ stamp[u] = 0 /\ Cardinality(Cached(coll)) = Size /\ last.op \in {"get", "has", "put", "puttmpl", "putfile"} /\ last.u # u /\ pinned[u] = 0 /\ built >= Size + 1
